@@ -30,6 +30,12 @@ func NewRawHTTPResponder(writer io.Writer) *RawHTTPResponder {
 	}
 }
 
+// Tells the responder which request it answers. The answer to a HEAD request consists of headers only, whatever
+// is written (also an error message): a body the client does not expect would be taken for the next response.
+func (c *RawHTTPResponder) AnswersTo(req *http.Request) {
+	c.response.Request = &http.Request{Method: req.Method}
+}
+
 func (c *RawHTTPResponder) parseAndSetContentLength() error {
 	header := c.response.Header
 
